@@ -875,6 +875,74 @@ func TestVfProxy(t *testing.T) {
 			pr.ncase++
 		}
 	}
+	// fault histories: a dialog is established through a backend, then that backend cannot be reached any more (its Send
+	// reports an error, as a TCP backend's does whose connection is gone and cannot be re-opened); whatever the proxy
+	// still delivers for the dialog's further requests - nothing, or the request somewhere else - must carry ONE Via of
+	// the proxy and Record-Route by policy like any other relayed request
+	for s := 0; s < vfEnvInt("VERIF_FAULTHIST", 0); s++ {
+		id := fmt.Sprintf("fault%d", s)
+		g := pr.g
+		cfg := vfBenchCfg{Names: vfNamesCfg, Hosts: g.hosts(), Proxies: []vfPCfg{{Addr: g.ip("10.0.0.1"), Trans: []vfTCfg{{"UDP", 5060, false}, {"TCP", 5061, false}},
+			MustRR: s%2 == 0, Recv: true, Backends: []string{g.ip("10.0.4.1") + ":5060", g.ip("10.0.4.2") + ":5060", g.ip("10.0.4.3") + ":5060"}[:2+s%2]}}}
+		b := vfGetBench(t, cfg)
+		pr.emitReset(id, b)
+		mkreq := func(method string, n int, totag string, rr bool) []byte {
+			to := "<sip:service@svc.example.com>" + totag
+			hs := []vfHdr{{g.name("Via"), fmt.Sprintf("SIP/2.0/UDP %s:5062;branch=z9hG4bKf%d-%d", g.ip("10.0.2.1"), s, n)}, {"Max-Forwards", "70"},
+				{"From", fmt.Sprintf("<sip:a@a.example>;tag=ff%d", s)}, {"To", to}, {"Call-ID", fmt.Sprintf("fault-%d@%s", s, g.base)}, {"CSeq", fmt.Sprintf("%d %s", n, method)}}
+			if rr {
+				hs = append(hs, vfHdr{"Record-Route", fmt.Sprintf("<sip:%s:5060;lr>", g.ip("10.0.3.1"))})
+			}
+			hs = append(hs, vfHdr{"Content-Length", "0"})
+			return vfRender(method+" sip:service@svc.example.com SIP/2.0", hs, nil)
+		}
+		count := func() map[string]int {
+			m := map[string]int{}
+			for a, d := range b.backs {
+				d.mu.Lock()
+				m[a] = len(d.got)
+				d.mu.Unlock()
+			}
+			return m
+		}
+		before := count()
+		pr.step(id, "fault-history initial INVITE", b, 0, 0, g.ip("10.0.5.5"), 40000, mkreq("INVITE", 1, "", false))
+		holder := ""
+		for a, n := range count() {
+			if n > before[a] {
+				holder = a
+			}
+		}
+		if holder == "" {
+			continue
+		}
+		hd := b.backs[holder]
+		hd.mu.Lock()
+		delivered := hd.got[len(hd.got)-1]
+		hd.mu.Unlock()
+		var hs []vfHdr
+		for _, v := range vfViaLines(delivered) {
+			hs = append(hs, vfHdr{"Via", v})
+		}
+		totag := fmt.Sprintf(";tag=bb%d", s)
+		hs = append(hs, vfHdr{"From", fmt.Sprintf("<sip:a@a.example>;tag=ff%d", s)}, vfHdr{"To", "<sip:service@svc.example.com>" + totag},
+			vfHdr{"Call-ID", fmt.Sprintf("fault-%d@%s", s, g.base)}, vfHdr{"CSeq", "1 INVITE"}, vfHdr{"Content-Length", "0"})
+		i := strings.LastIndexByte(holder, ':')
+		hport := 0
+		fmt.Sscanf(holder[i+1:], "%d", &hport)
+		pr.step(id, "fault-history answered 200", b, 0, 0, holder[:i], hport, vfRender("SIP/2.0 200 OK", hs, nil))
+		pr.step(id, "fault-history ACK while the backend is up", b, 0, 0, g.ip("10.0.5.5"), 40000, mkreq("ACK", 1, totag, false))
+		hd.mu.Lock()
+		hd.fail = true
+		hd.mu.Unlock()
+		for n, m := range []string{"INFO", "UPDATE", "INVITE", "BYE"} {
+			pr.step(id, "fault-history in-dialog "+m+" while the dialog's backend is unreachable", b, 0, 0, g.ip("10.0.5.5"), 40000, mkreq(m, 2+n, totag, n%2 == 1))
+		}
+		hd.mu.Lock()
+		hd.fail = false
+		hd.mu.Unlock()
+		pr.ncase++
+	}
 	fmt.Printf("VF cases=%d events=%d\n", pr.ncase, tr.n)
 }
 
